@@ -1,7 +1,7 @@
 (* PropC01.v — property C01: line-based retrace returns exactly the recorded call stack.
    Statements only; proofs in MapperProofs.v (mapper = spec), CacheProofs.v (cache = spec),
    IsolationProofs.v / ParserFacts.v (lifting to files). *)
-From PG Require Import Base Mapping Spec Mapper CacheWriter CacheReader CacheStructDefs MappingProofs IsolationProofs MapperProofs ParserFacts CacheBytesProofs Domain WriterInv CacheProofs CacheLayout BridgeBlocks SpecFacts Roundtrip FileLevel.
+From PG Require Import Base Mapping Spec Mapper CacheWriter CacheReader CacheStructDefs MappingProofs IsolationProofs MapperProofs ParserFacts CacheBytesProofs Domain WriterInv CacheProofs CacheLayout BridgeBlocks SpecFacts Roundtrip FileLevel OuterNameProofs.
 
 (* mapper = specification, for every record list with non-empty original class names and
    positive end lines (both hold for what the parser yields from in-domain files) *)
@@ -88,6 +88,29 @@ Theorem C01_block_order_irrelevant : forall bs1 bs2,
   (forall c m line file, Sline (unblocks bs1) c m line file = Sline (unblocks bs2) c m line file) /\
   (forall c m p, Sparams (unblocks bs1) c m p = Sparams (unblocks bs2) c m p).
 Proof. exact C01_block_order. Qed.
+
+(* the file name of a frame whose class has the synthetic-class source file ("R8$$SyntheticClass"): for
+   EVERY class name it is the piece after the last '.' and before the first '$' of that piece — one of
+   exactly four shapes — and never contains a separator; empty when that piece starts with '$' *)
+Theorem C01_synthetic_file_shapes : forall s,
+  (exists p q r, s = p ++ 46 :: q ++ 36 :: r /\ ~ In 46 q /\ ~ In 36 q /\ ~ In 46 r /\ outer_simple_name s = q) \/
+  (exists p q, s = p ++ 46 :: q /\ ~ In 46 q /\ ~ In 36 q /\ outer_simple_name s = q) \/
+  (exists q r, s = q ++ 36 :: r /\ ~ In 46 q /\ ~ In 36 q /\ ~ In 46 r /\ outer_simple_name s = q) \/
+  (~ In 46 s /\ ~ In 36 s /\ outer_simple_name s = s).
+Proof.
+  intros s. destruct (outer_simple_name_shapes s) as
+    [(p & q & r & E & H1 & H2 & H3)|[(p & q & E & H1 & H2)|[(q & r & E & H1 & H2 & H3)|(H1 & H2)]]].
+  - left. exists p, q, r. subst s. repeat split; try assumption. exact (outer_simple_name_pkg_dollar p q r H1 H2 H3).
+  - right; left. exists p, q. subst s. repeat split; try assumption. exact (outer_simple_name_pkg_plain p q H1 H2).
+  - right; right; left. exists q, r. subst s. repeat split; try assumption. exact (outer_simple_name_nopkg_dollar q r H1 H2 H3).
+  - right; right; right. repeat split; try assumption. exact (outer_simple_name_nopkg_plain s H1 H2).
+Qed.
+Theorem C01_synthetic_file_no_separator : forall s,
+  ~ In 46 (outer_simple_name s) /\ ~ In 36 (outer_simple_name s).
+Proof. exact outer_simple_name_no_separator. Qed.
+Theorem C01_synthetic_file_dollar_first : forall p r,
+  ~ In 46 r -> outer_simple_name (p ++ 46 :: 36 :: r) = [].
+Proof. exact outer_simple_name_dollar_first. Qed.
 
 Check C01_mapper : forall ix rs c m line file,
   wf_class_names rs = true -> wf_line_mappings rs = true ->
